@@ -97,7 +97,8 @@ theorem builtin_result_stable (ops : List (List Nat × Info)) {h1 h2 h3 : Heap I
 
 /-- **regenerated tie: the stores of mime.go are the stores of the heap model** — every assignment
     to a field of a `MIME` node and every `MIME` composite literal of the package, per function, as
-    the extractor reads them from the current source: `newMIME` allocates with the children and
+    the extractor reads them from the current source (names of variables and parameters replaced by `_`,
+    so that a renamed local changes nothing): `newMIME` allocates with the children and
     sets each child's `parent` (`Heap.newMIME`), `clone` allocates without parent and children
     (`Heap.clone`), `cloneHierarchy` links the previous clone to the new one (`Heap.cloneLoop`),
     `Extend` allocates with `parent: m` and prepends to a *fresh* children slice (`Heap.extend`),
@@ -105,13 +106,13 @@ theorem builtin_result_stable (ops : List (List Nat × Info)) {h1 h2 h3 : Heap I
     `flatten`, `Parent` and the accessors only read (the frame the theorems above rely on). -/
 theorem tie_node_stores :
     Gen.Writes.nodeStores =
-      ["newMIME:MIME{mime: mime, extension: extension, detector: detector, children: children}",
-       "newMIME:c.parent = m",
-       "alias:m.aliases = aliases",
-       "clone:MIME{mime: clonedMIME, aliases: m.aliases, extension: m.extension}",
-       "cloneHierarchy:lastChild.parent = pClone",
-       "Extend:MIME{mime: mime, extension: extension, detector: detector, parent: m, aliases: aliases}",
-       "Extend:m.children = append([]*MIME{c}, m.children...)"] := by decide
+      ["newMIME:MIME{mime: _, extension: _, detector: _, children: _}",
+       "newMIME:_.parent = _",
+       "alias:_.aliases = _",
+       "clone:MIME{mime: _, aliases: _.aliases, extension: _.extension}",
+       "cloneHierarchy:_.parent = _",
+       "Extend:MIME{mime: _, extension: _, detector: _, parent: _, aliases: _}",
+       "Extend:_.children = append([]*MIME{_}, _.children...)"] := by decide
 
 /-- non-vacuity: extending node [0] of the example heap commutes with the abstraction -/
 example : (extend exHeap 1 9).bind (fun r => HeapAbs.abs r.1 3) = Tree.extendAt (.node 9 []) [0] exTree := by
